@@ -34,9 +34,11 @@ Recv(i) ==
 Fault == Scn.fault
 \* the undecodable answer: fixed octets, or (cut > 0) the genuine answer without its last `cut` octets - an incomplete encoding whose
 \* beginning is right (a decoder that reads past the end of what was received, into whatever its buffer still holds, accepts it)
-\* ... or (ie = k > 0) the genuine answer with the value of its k-th information element replaced by octets that are no value of the
-\* IE's type, every length around it consistent (a transfer syntax error inside an intact frame, TS 38.413 10.2), optionally with that
-\* IE's criticality set to "ignore" - which is a statement about IEs that are not comprehended, not about octets that cannot be decoded
+\* ... or (ie = k > 0) the genuine answer with the value of its k-th information element cut short by its last octet, every length around
+\* it consistent (a transfer syntax error inside an intact frame, TS 38.413 10.2: a PER encoding is self-delimiting, so a proper prefix of
+\* one is the encoding of nothing - whereas octets *behind* a complete value inside an open type are tolerated by lenient decoders, this
+\* library among them, and are not used as a fault), optionally with that IE's criticality set to "ignore" - which is a statement about
+\* IEs that are not comprehended, not about octets that cannot be decoded
 RECURSIVE SetEnum(_, _)
 SetEnum(t, val) == CASE t.k = "enum" -> [t EXCEPT !.v = val] [] t.k = "seq" -> [t EXCEPT !.fields[1].v = SetEnum(@, val)] [] OTHER -> t
 RECURSIVE EnumAt(_, _, _)
@@ -52,7 +54,8 @@ IeGarbage(bytes) ==
         IF Len(ps) < 2 THEN Fault.bytes
         ELSE LET ies == SelectSeq(ps, LAMBDA p : Len(p) = Len(ps[2]))       \* the message body first, then the IE values in document order
                  p == ies[((Fault.ie - 1) % Len(ies)) + 1]
-                 t1 == SetRawAt(d.v, p, Fault.bytes)
+                 enc == PerEncode(NodeAt(d.v, p).v)
+                 t1 == SetRawAt(d.v, p, SubSeq(enc, 1, Len(enc) - 1))
                  t2 == IF "ignore" \in DOMAIN Fault /\ Fault.ignore THEN EnumAt(t1, SubSeq(p, 1, Len(p) - 1) \o <<2>>, 1) ELSE t1
              IN PerEncode(t2)
 Garbage(bytes) == IF "ie" \in DOMAIN Fault /\ Fault.ie > 0 THEN IeGarbage(bytes) ELSE IF "cut" \in DOMAIN Fault /\ Fault.cut > 0 /\ Len(bytes) > Fault.cut THEN SubSeq(bytes, 1, Len(bytes) - Fault.cut) ELSE Fault.bytes
